@@ -61,7 +61,9 @@ fn main() {
             }
         }
     }
-    let base_dir = PathBuf::from(format!("/dev/shm/trusim.{}", std::process::id()));
+    // (fixed-width names: truth writes canonicalised absolute paths into some outputs, and although the
+    //  driver normalises them afterwards, their *length* shows in write sizes, i.e. in the event traces)
+    let base_dir = PathBuf::from(format!("/dev/shm/trusim.{:08}", std::process::id()));
     std::fs::create_dir_all(&base_dir).expect("create /dev/shm sandbox base");
     let cfg = sandbox::Config {
         truth_bin: PathBuf::from(env_or("TRUSIM_TRUTH_BIN", "/verif/.cache/truth-target/release/truth-core")),
